@@ -114,6 +114,39 @@ let leaf ws = match ws with
     (match Gen_HashSetGrow.coq_Reserve_loop0 mc tc Gen_HashSetGrow.fuel_of_Reserve (z_of_string n) (z_of_int 0) (z_of_int 0) (z_of_string nl0) with
      | GenPrelude.Ok (_, (cap, lg)) -> string_of_z lg ^ " " ^ string_of_z cap
      | GenPrelude.Exn -> "EXN" | GenPrelude.Fuel -> "Fuel" | GenPrelude.Stuck -> "Stuck")
+  | "move" :: kind :: l :: hs ->
+    (* the GENERATED pvAddNogrow probe loop and pvRelocateItems loop skeleton, run on a table that is only a count per bucket:
+       IsFull = count >= maxCount, GetStartBucketIndex / GetNextBucketIndex = the generated ones of the kind, buckets[i] = i;
+       the relocation primitives Remove / GetHashCodePart are closures that log (bucket, iterator) *)
+    let lg = int_of_string l in let bc = 1 lsl lg in let zbc = z_of_int bc in let z0 = z_of_int 0 in
+    let mc = (match kind with "L1" | "O1" | "N1" -> 1 | "L2" -> 2 | "O3" -> 3 | "L4" -> 4 | _ -> 7) in
+    let rec nat_of n = if n <= 0 then Datatypes.O else Datatypes.S (nat_of (n - 1)) in
+    let cnt = Array.make bc 0 in
+    let full i = cnt.(int_of_z i) >= mc in
+    let nexti i _ b p = (match kind with
+      | "O1" | "O3" -> Gen_IndexOpen2N2.coq_GetNextBucketIndex i b p
+      | "O8" -> Gen_IndexOpen8.coq_GetNextBucketIndex i b p
+      | _ -> Gen_IndexBase.coq_GetNextBucketIndex i b) in
+    let buf = Buffer.create 256 in
+    Buffer.add_string buf l;
+    Stdlib.List.iter (fun hstr ->
+      let h = z_of_string hstr in
+      let i0 = Gen_IndexBase.coq_GetStartBucketIndex h zbc in
+      match Gen_HashSetMove.pvAddNogrow_loop0 full nexti (fun _ i -> i) (nat_of (bc + 1)) zbc z0 h i0 i0 z0 with
+      | GenPrelude.Ok (_, ((_, i), _)) -> let j = int_of_z i in cnt.(j) <- cnt.(j) + 1; Buffer.add_string buf (" " ^ string_of_int j)
+      | GenPrelude.Exn -> Buffer.add_string buf " F"
+      | _ -> Buffer.add_string buf " ?") hs;
+    let total = Array.fold_left (+) 0 cnt in
+    let moves = ref [] in
+    let remove b _ it _ = moves := (int_of_z b, int_of_z it) :: !moves; it in
+    let hashpart _ _ _ _ _ _ = z0 in
+    let cof b = z_of_int cnt.(int_of_z b) in
+    let r = Gen_HashSetMove.pvRelocateItems_b_loop0 (z_of_int lg) (fun _ i -> i) (fun x -> x) (fun b _ -> b) cof hashpart remove cof
+        (nat_of (bc + 1)) zbc z0 z0 z0 z0 z0 z0 z0 z0 z0 z0 z0 in
+    Buffer.add_string buf (match r with GenPrelude.Ok _ -> " | 1" | GenPrelude.Exn -> " | EXN" | GenPrelude.Fuel -> " | FUEL" | GenPrelude.Stuck -> " | STUCK");
+    Stdlib.List.iter (fun (b, it) -> Buffer.add_string buf (Printf.sprintf " %d.%d" b it)) (Stdlib.List.rev !moves);
+    Buffer.add_string buf (Printf.sprintf " | %d" total);
+    Buffer.contents buf
   | _ -> "?leaf"
 let () = iter_lines (fun line ->
   try
